@@ -23,14 +23,13 @@ import Sipsp.Generated.Funcs
 import Sipsp.Model.Sig
 import Sipsp.Model.URI
 import Sipsp.Model.Lex
-import Sipsp.Model.Bytescase
 import Sipsp.Proofs.Scan
 
 namespace Sipsp.TieFuncs
 open Sipsp
 
 /-- every byte is `UInt8.ofNat` of a number below 256 -/
-private theorem u8_cases (p : UInt8 → Prop) (h : ∀ n, n < 256 → p (UInt8.ofNat n)) (c : UInt8) : p c := by
+theorem u8_cases (p : UInt8 → Prop) (h : ∀ n, n < 256 → p (UInt8.ofNat n)) (c : UInt8) : p c := by
   have := h c.toNat c.toNat_lt
   simpa using this
 
@@ -530,26 +529,6 @@ theorem msgMethod_tie (m : PSIPMsg) (hs : m.fl.status < 65536) (hl : m.fl.status
   unfold Gen.F.PSIPMsg_Method PSIPMsg.method
   rw [msgRequest_tie m hs hl]
   by_cases h : m.request = true <;> simp [h]
-
-/-! ### the dependency `github.com/intuitivelabs/bytescase` (the version pinned by the repository's go.mod, read from the
-module cache): its scalar leaf `ByteToLower`, the letter-case fold under every case-insensitive comparison -/
-
-set_option maxRecDepth 20000 in
-private theorem lower_table : ∀ n, n < 256 →
-    Gen.F.bytescase_ByteToLower (UInt8.ofNat n) = byteToLower (UInt8.ofNat n) := by
-  decide +kernel
-
--- TIE: bytescase.ByteToLower
-/-- `bytescase.ByteToLower` (branch-free bit arithmetic on uint32) as translated from the dependency's source = the
-    model's `byteToLower`, for every byte -/
-theorem byteToLower_tie (b : UInt8) : Gen.F.bytescase_ByteToLower b = byteToLower b :=
-  u8_cases (fun b => Gen.F.bytescase_ByteToLower b = byteToLower b) lower_table b
-
-/-- and it is what it should be: upper-case ASCII letters get bit 5 set, every other byte is unchanged -/
-theorem byteToLower_spec (b : UInt8) :
-    Gen.F.bytescase_ByteToLower b = if (65 ≤ b && b ≤ 90) then b ||| 32 else b := by
-  refine u8_cases (fun b => Gen.F.bytescase_ByteToLower b = if (65 ≤ b && b ≤ 90) then b ||| 32 else b) ?_ b
-  decide +kernel
 
 /-! ### the capacity accessors `VNo / PNo / HNo / More` (the caller's array enters as its length) -/
 
